@@ -912,6 +912,25 @@ def gen_requests(rng, thorough):
             reqs.append(mk_str("char_byte_index", s, [a]))
         reqs.append(mk_str("char_byte_index", s, []))
         reqs.append(mk_str("char_byte_index", s, [N(0), N(0)]))
+    # searching: EVERY text of up to 5 (thorough: 6) characters over a two-letter alphabet x every pattern of up to 3 (4) characters - patterns
+    # with repeated prefixes against texts with one repetition more, overlapping occurrences, occurrences that begin inside a failed partial
+    # match - in one-byte and in multi-byte spelling
+    import itertools
+    maxh, maxn = (6, 4) if thorough else (5, 3)
+    for alpha in (("a", "b"), ("\u00e9", "\u20ac")):
+        texts = ["".join(t) for n in range(1, maxh + 1) for t in itertools.product(alpha, repeat=n)]
+        pats = ["".join(t) for n in range(1, maxn + 1) for t in itertools.product(alpha, repeat=n)]
+        for tx in texts:
+            tb = tx.encode("utf-8")
+            for pt in pats:
+                if len(pt) > len(tx):
+                    continue
+                pb = pt.encode("utf-8")
+                reqs.append(mk_str("find", tb, [("s", pb), N(0)]))
+                if len(pt) >= 2:
+                    reqs.append(mk_str("find", tb, [("s", pb), N(len(alpha[0].encode("utf-8")))]))
+                    reqs.append(mk_str("replace", tb, [("s", pb), ("s", b"X")]))
+                    reqs.append(mk_str("split", tb, [("s", pb)]))
     sub_small = [x for x in small]
     r3 = rng.fork("subs")
     for s in recvs:
